@@ -415,29 +415,36 @@ def run_shared(res):
 
 
 def run_noexpand(res):
-    """expand_includes=False keeps the directives as data and writes them back unchanged"""
-    for paths in (["a.map"], ["a.map", "sub/b.map"], ["/abs/x.map", "y.map", "z z.map"]):
+    """expand_includes=False keeps the directives as data and writes them back unchanged: every sequence (<= 3, repeats
+    allowed) over an alphabet of include names, in every position relative to an ordinary keyword line"""
+    names = ["a.map", "sub/b.map", "/abs/x.map", "z z.map"]
+    seqs = [list(c) for L in (1, 2, 3) for c in itertools.product(names[:3], repeat=L)] + [["z z.map"], ["a.map", "z z.map", "a.map"]]
+    for paths in seqs:
         for q in ('"', "'"):
             for otype, extra in (("map", ""), ("layer", "TYPE POINT"), ("class", ""), ("style", "")):
-                lines = [otype.upper()] + (["  " + extra] if extra else []) + ["  INCLUDE %s%s%s" % (q, p, q) for p in paths]
-                lines.insert(2, '  %s "k"' % LINE_KW[otype])
-                lines.append("END")
-                text = "\n".join(lines)
-                res["evals"] += 1
-                try:
-                    d = impl.loads(text, expand_includes=False)
-                    ok = d.get("include") == paths
-                    d2 = impl.loads(impl.dumps(d), expand_includes=False)
-                    ok = ok and D.typed(d2) == D.typed(d)
-                    why = "include list %r, after dumps/loads %r" % (d.get("include"), d2.get("include"))
-                except Exception as e:
-                    ok, why = False, "%s: %s" % (impl.exc_name(e), str(e)[:100])
-                if ok:
-                    R.add_outcome(res, "directives_kept")
-                    res["states"].add(R.h64(text))
-                else:
-                    R.add_violation(res, "noexpand|%s|%r" % (otype, paths), "with expand_includes=False the directives must be kept as data and written back: " + why,
-                                    {"text": text}, None)
+                for kwpos in range(0, len(paths) + 1) if q == '"' else (1,):
+                    inc = ["  INCLUDE %s%s%s" % (q, p, q) for p in paths]
+                    inc.insert(min(kwpos, len(inc)), '  %s "k"' % LINE_KW[otype])
+                    lines = [otype.upper()] + (["  " + extra] if extra else []) + inc + ["END"]
+                    text = "\n".join(lines)
+                    res["evals"] += 1
+                    try:
+                        d = impl.loads(text, expand_includes=False)
+                        ok = d.get("include") == paths
+                        out = impl.dumps(d)
+                        written = [ln.strip() for ln in out.split("\n") if ln.strip().upper().startswith("INCLUDE")]
+                        ok = ok and written == ['INCLUDE "%s"' % p for p in paths]
+                        d2 = impl.loads(out, expand_includes=False)
+                        ok = ok and D.typed(d2) == D.typed(d)
+                        why = "include list %r, written lines %r, after dumps/loads %r" % (d.get("include"), written, d2.get("include"))
+                    except Exception as e:
+                        ok, why = False, "%s: %s" % (impl.exc_name(e), str(e)[:100])
+                    if ok:
+                        R.add_outcome(res, "directives_kept")
+                        res["states"].add(R.h64(text))
+                    else:
+                        R.add_violation(res, "noexpand|%s|%r" % (otype, paths), "with expand_includes=False the directives must be kept as data and written back: " + why,
+                                        {"text": text}, None)
     R.add_sub(res, "expand_includes=False round trip", res["evals"])
 
 
